@@ -120,8 +120,16 @@ def handler(payload):
             elif "image" in case:
                 image = bytes.fromhex(case["image"])
             if "parse" in ops and image is not None:
-                r = guarded(lambda: observe_parsed(HabContainer.parse(image)), seconds=60)
-                res["parse"] = list(r) if r[0] != "ok" else ["ok", r[1]]
+                detail = []
+
+                def do_parse():
+                    try:
+                        return observe_parsed(HabContainer.parse(image))
+                    except Exception as ex:  # noqa  (re-raised: only the class name and message are recorded for the oracle)
+                        detail[:] = [type(ex).__name__, str(ex)[:160]]
+                        raise
+                r = guarded(do_parse, seconds=60)
+                res["parse"] = (list(r[:2]) + detail) if r[0] != "ok" else ["ok", r[1]]
             if "update_twice" in ops and hab is not None:
                 def again():
                     out = []
